@@ -503,7 +503,7 @@ Proof. intros Hv Hm. apply ninterp_ge.
 (* combustor-inlet pressure ratio: positive whenever the point is not a climbing point below 3000 m *)
 Lemma meem_p3_ratio_pos pr hmax hp h : 1 < pr -> (h <= hp \/ 3000 <= h) -> h <= hmax ->
   0 < @meem_p3_ratio RNum pr hmax hp h.
-Proof. intros Hpr Hcase Hmax. unfold meem_p3_ratio, meem_pc, meem_lin. rn.
+Proof. intros Hpr Hcase Hmax. unfold meem_p3_ratio, meem_pc, meem_pc_rate, meem_lin. rn.
   unfold Rltb at 1. destruct (Rlt_dec 0 (h - hp)) as [Hc | Hc].
   - assert (H3 : 3000 <= h) by (destruct Hcase; lra).
     set (d := if Rltb _ _ then _ else _).
@@ -520,7 +520,7 @@ Proof. intros Hpr Hcase Hmax. unfold meem_p3_ratio, meem_pc, meem_lin. rn.
 Lemma meem_low_climb_negative_pressure :
   exists pr hmax hp h, 1 < pr /\ 0 <= hp < h /\ h <= hmax /\ @meem_p3_ratio RNum pr hmax hp h < 0.
 Proof. exists 25, 2500, 0, 1000. repeat split; try lra.
-  unfold meem_p3_ratio, meem_pc, meem_lin. rn. rsolve. lra. Qed.
+  unfold meem_p3_ratio, meem_pc, meem_pc_rate, meem_lin. rn. rsolve. lra. Qed.
 
 (* ------------------------------------------------------------------------------------------------ *)
 (* non-vacuity of the hypotheses used in props/C12_Props.v                                             *)
